@@ -3,7 +3,8 @@
 // C08 (iii) — what the filtered-output writer hands to its sink is rdh0|payload0|rdh1|payload1...
 #![allow(unused_imports, dead_code, static_mut_refs, clippy::all)]
 use super::*;
-use alice_protocol_reader::prelude::{CdpArray, RdhCru, SerdeRdh, RDH};
+use alice_protocol_reader::cdp_wrapper::cdp_array::CdpArray;
+use alice_protocol_reader::prelude::{RdhCru, SerdeRdh, RDH};
 
 const CAPN: usize = 512;
 static mut OUT: [u8; CAPN] = [0; CAPN];
